@@ -441,6 +441,16 @@ def exhaustive(tid, length, reduced):
 # --------------------------------------------------------------------------
 
 def run_batch(exe, cases, acc):
+    # the last vector of the batch once more, parsed from an exit handler that
+    # was registered before getopt was first used (the driver answers it when
+    # it exits, after getopt's own exit-time clean-up): same result expected
+    if cases and len(cases[-1]['line'].split()) == 4:
+        x = dict(cases[-1])
+        x['line'] = 'X' + x['line'][1:]
+        x['kind'] = 'getopt-at-exit'
+        x['flags'] = set(x['flags']) | {'parsed_from_an_exit_handler'}
+        x['sig'] = x['sig'] ^ 0x5e17
+        cases = cases + [x]
     r = core.line_shard(exe, cases, timeout=300)
     if len(r['alarms']) > 20:
         acc['stop'] = True          # broken build: no point in going on
